@@ -57,6 +57,7 @@ import (
 	"github.com/tink-crypto/tink-go/v2/secretdata"
 	"github.com/tink-crypto/tink-go/v2/signature/mldsa"
 	"github.com/tink-crypto/tink-go/v2/verifbridge/c14b"
+	"verif/h"
 	"verif/ref"
 )
 
@@ -223,7 +224,15 @@ func mldsaPriv(inst, label string) *tinkpb.KeyData {
 func slhdsaPriv(set string, label string) *tinkpb.KeyData {
 	// set: "SHA2-128f" ...
 	n := map[string]int{"128f": 16, "192f": 24, "256f": 32}[set[strings.Index(set, "-")+1:]]
-	sk := c14b.SLHKeygen(set, kb("slh/skseed/"+set+label, n), kb("slh/skprf/"+set+label, n), kb("slh/pkseed/"+set+label, n))
+	skSeed, skPrf, pkSeed := kb("slh/skseed/"+set+label, n), kb("slh/skprf/"+set+label, n), kb("slh/pkseed/"+set+label, n)
+	var sk []byte
+	if h.Seams() {
+		sk = c14b.SLHKeygen(set, skSeed, skPrf, pkSeed)
+	} else if p := ref.SLHByName("SLH-DSA-" + set); p != nil {
+		// export shim unavailable (tink internals refactored, see check.sh): the same key from the FIPS 205 reference
+		// model (slh_keygen_internal is a deterministic function of the three seeds), so every seed of the corpus exists
+		sk, _ = p.KeygenInternal(skSeed, skPrf, pkSeed)
+	}
 	if sk == nil {
 		panic("slhdsa keygen " + set)
 	}
